@@ -15,6 +15,10 @@
 #include "block_buffer_encoder.h"
 #include "index_encoder.h"
 #include "outqueue.h"
+#include "verif_hooks.h"
+
+/// Index of a worker thread for VERIF_EV()
+#define VERIF_THR(thr) ((thr) - (thr)->coder->threads)
 
 
 /// Maximum supported block size. This makes it simpler to prevent integer
@@ -208,6 +212,7 @@ worker_error(worker_thread *thr, lzma_ret ret)
 		if (thr->coder->thread_error == LZMA_OK)
 			thr->coder->thread_error = ret;
 
+		VERIF_EV("WError", thr->coder, VERIF_THR(thr), ret, 0, 0, 0);
 		mythread_cond_signal(&thr->coder->cond);
 	}
 
@@ -251,6 +256,8 @@ worker_encode(worker_thread *thr, size_t *out_pos, worker_state state)
 	size_t in_pos = 0;
 	size_t in_size = 0;
 
+	VERIF_EV("WEncInit", thr->coder, VERIF_THR(thr), 0, 0, 0, 0);
+
 	*out_pos = thr->block_options.header_size;
 	const size_t out_size = thr->outbuf->allocated;
 
@@ -266,12 +273,18 @@ worker_encode(worker_thread *thr, size_t *out_pos, worker_state state)
 			thr->progress_in = in_pos;
 			thr->progress_out = *out_pos;
 
+			VERIF_EV("WEncSyncBegin", thr->coder, VERIF_THR(thr),
+					in_pos, *out_pos, 0, 0);
+
 			while (in_size == thr->in_size
 					&& thr->state == THR_RUN)
 				mythread_cond_wait(&thr->cond, &thr->mutex);
 
 			state = thr->state;
 			in_size = thr->in_size;
+
+			VERIF_EV("WEncSync", thr->coder, VERIF_THR(thr),
+					state, in_size, 0, 0);
 		}
 
 		// Return if we were asked to stop or exit.
@@ -295,6 +308,9 @@ worker_encode(worker_thread *thr, size_t *out_pos, worker_state state)
 				thr->block_encoder.coder, thr->allocator,
 				thr->in, &in_pos, in_limit, thr->outbuf->buf,
 				out_pos, out_size, action);
+
+		VERIF_EV("WEncCode", thr->coder, VERIF_THR(thr), ret, in_pos,
+				*out_pos, *out_pos == out_size);
 	} while (ret == LZMA_OK && *out_pos < out_size);
 
 	switch (ret) {
@@ -324,6 +340,9 @@ worker_encode(worker_thread *thr, size_t *out_pos, worker_state state)
 
 			state = thr->state;
 			in_size = thr->in_size;
+
+			VERIF_EV("WEncWaitFin", thr->coder, VERIF_THR(thr),
+					state, in_size, 0, 0);
 		}
 
 		if (state >= THR_STOP)
@@ -373,14 +392,22 @@ worker_start(void *thr_ptr)
 				// requested to stop, just set the state.
 				if (thr->state == THR_STOP) {
 					thr->state = THR_IDLE;
+					VERIF_EV("WStopAck", thr->coder,
+							VERIF_THR(thr), 0, 0, 0, 0);
 					mythread_cond_signal(&thr->cond);
 				}
 
 				state = thr->state;
+
+				VERIF_EV("WTop", thr->coder, VERIF_THR(thr),
+						state, 0, 0, 0);
+
 				if (state != THR_IDLE)
 					break;
 
 				mythread_cond_wait(&thr->cond, &thr->mutex);
+				VERIF_EV("WWake", thr->coder, VERIF_THR(thr),
+						0, 0, 0, 0);
 			}
 		}
 
@@ -401,8 +428,14 @@ worker_start(void *thr_ptr)
 		mythread_sync(thr->mutex) {
 			if (thr->state != THR_EXIT) {
 				thr->state = THR_IDLE;
+				VERIF_EV("WFinThr", thr->coder, VERIF_THR(thr),
+						1, 0, 0, 0);
 				mythread_cond_signal(&thr->cond);
 			}
+
+			if (thr->state == THR_EXIT)
+				VERIF_EV("WFinThr", thr->coder, VERIF_THR(thr),
+						0, 0, 0, 0);
 		}
 
 		mythread_sync(thr->coder->mutex) {
@@ -424,6 +457,9 @@ worker_start(void *thr_ptr)
 			thr->next = thr->coder->threads_free;
 			thr->coder->threads_free = thr;
 
+			VERIF_EV("WFinCoder", thr->coder, VERIF_THR(thr), state,
+					out_pos, thr->outbuf->uncompressed_size,
+					thr->outbuf->finished);
 			mythread_cond_signal(&thr->coder->cond);
 		}
 	}
@@ -448,9 +484,12 @@ threads_stop(lzma_stream_coder *coder, bool wait_for_threads)
 	for (uint32_t i = 0; i < coder->threads_initialized; ++i) {
 		mythread_sync(coder->threads[i].mutex) {
 			coder->threads[i].state = THR_STOP;
+			VERIF_EV("Stop", coder, i, 0, 0, 0, 0);
 			mythread_cond_signal(&coder->threads[i].cond);
 		}
 	}
+
+	VERIF_EV("StopDone", coder, -1, wait_for_threads, 0, 0, 0);
 
 	if (!wait_for_threads)
 		return;
@@ -476,6 +515,7 @@ threads_end(lzma_stream_coder *coder, const lzma_allocator *allocator)
 	for (uint32_t i = 0; i < coder->threads_initialized; ++i) {
 		mythread_sync(coder->threads[i].mutex) {
 			coder->threads[i].state = THR_EXIT;
+			VERIF_EV("EndSignal", coder, i, 0, 0, 0, 0);
 			mythread_cond_signal(&coder->threads[i].cond);
 		}
 	}
@@ -485,6 +525,11 @@ threads_end(lzma_stream_coder *coder, const lzma_allocator *allocator)
 		assert(ret == 0);
 		(void)ret;
 	}
+
+	for (uint32_t i = 0; i < coder->threads_initialized; ++i)
+		VERIF_EV("EndJoin", coder, i, 0, 0, 0, 0);
+
+	VERIF_EV("EndDone", coder, -1, 0, 0, 0, 0);
 
 	lzma_free(coder->threads, allocator);
 	return;
@@ -515,6 +560,8 @@ initialize_new_thread(lzma_stream_coder *coder,
 	thr->progress_out = 0;
 	thr->block_encoder = LZMA_NEXT_CODER_INIT;
 	thr->filters[0].id = LZMA_VLI_UNKNOWN;
+
+	VERIF_EV("Create", coder, coder->threads_initialized, 0, 0, 0, 0);
 
 	if (mythread_create(&thr->thread_id, &worker_start, thr))
 		goto error_thread;
@@ -562,6 +609,9 @@ get_thread(lzma_stream_coder *coder, const lzma_allocator *allocator)
 			coder->thr = coder->threads_free;
 			coder->threads_free = coder->threads_free->next;
 		}
+
+		VERIF_EV("GtPop", coder, coder->thr == NULL
+				? -1 : VERIF_THR(coder->thr), 0, 0, 0, 0);
 	}
 
 	if (coder->thr == NULL) {
@@ -588,6 +638,7 @@ get_thread(lzma_stream_coder *coder, const lzma_allocator *allocator)
 				sizeof(coder->filters_cache));
 		coder->filters_cache[0].id = LZMA_VLI_UNKNOWN;
 
+		VERIF_EV("GtStart", coder, VERIF_THR(coder->thr), 0, 0, 0, 0);
 		mythread_cond_signal(&coder->thr->cond);
 	}
 
@@ -614,6 +665,9 @@ stream_encode_in(lzma_stream_coder *coder, const lzma_allocator *allocator,
 		lzma_bufcpy(in, in_pos, in_size, coder->thr->in,
 				&thr_in_size, coder->block_size);
 
+		VERIF_EV("Copy", coder, VERIF_THR(coder->thr),
+				thr_in_size - coder->thr->in_size, 0, 0, 0);
+
 		// Tell the Block encoder to finish if
 		//  - it has got block_size bytes of input; or
 		//  - all input was used and LZMA_FINISH, LZMA_FULL_FLUSH,
@@ -631,6 +685,8 @@ stream_encode_in(lzma_stream_coder *coder, const lzma_allocator *allocator,
 				// encoder. It has set coder->thread_error
 				// which we will read a few lines later.
 				block_error = true;
+				VERIF_EV("Publish", coder, VERIF_THR(coder->thr),
+						1, thr_in_size, finish, 0);
 			} else {
 				// Tell the Block encoder its new amount
 				// of input and update the state if needed.
@@ -639,6 +695,8 @@ stream_encode_in(lzma_stream_coder *coder, const lzma_allocator *allocator,
 				if (finish)
 					coder->thr->state = THR_FINISH;
 
+				VERIF_EV("Publish", coder, VERIF_THR(coder->thr),
+						0, thr_in_size, finish, 0);
 				mythread_cond_signal(&coder->thr->cond);
 			}
 		}
@@ -648,6 +706,7 @@ stream_encode_in(lzma_stream_coder *coder, const lzma_allocator *allocator,
 
 			mythread_sync(coder->mutex) {
 				ret = coder->thread_error;
+				VERIF_EV("BlkErr", coder, -1, ret, 0, 0, 0);
 			}
 
 			return ret;
@@ -699,6 +758,8 @@ wait_for_work(lzma_stream_coder *coder, mythread_condtime *wait_abs,
 				&& !lzma_outq_is_readable(&coder->outq)
 				&& coder->thread_error == LZMA_OK
 				&& !timed_out) {
+			VERIF_EV("Wait", coder, -1, 0, has_input, 0, 0);
+
 			if (coder->timeout != 0)
 				timed_out = mythread_cond_timedwait(
 						&coder->cond, &coder->mutex,
@@ -706,7 +767,11 @@ wait_for_work(lzma_stream_coder *coder, mythread_condtime *wait_abs,
 			else
 				mythread_cond_wait(&coder->cond,
 						&coder->mutex);
+
+			VERIF_EV("WaitWake", coder, -1, timed_out, 0, 0, 0);
 		}
+
+		VERIF_EV("Wait", coder, -1, 1, has_input, timed_out, 0);
 	}
 
 	return timed_out;
@@ -720,6 +785,9 @@ stream_encode_mt(void *coder_ptr, const lzma_allocator *allocator,
 		size_t *restrict out_pos, size_t out_size, lzma_action action)
 {
 	lzma_stream_coder *coder = coder_ptr;
+
+	VERIF_EV("Call", coder, -1, action, in_size - *in_pos,
+			out_size - *out_pos, 0);
 
 	switch (coder->sequence) {
 	case SEQ_STREAM_HEADER:
@@ -749,6 +817,8 @@ stream_encode_mt(void *coder_ptr, const lzma_allocator *allocator,
 				ret = coder->thread_error;
 				if (ret != LZMA_OK) {
 					assert(ret != LZMA_STREAM_END);
+					VERIF_EV("BlkRead", coder, -1, ret,
+							*out_pos, 1, 0);
 					break; // Break out of mythread_sync.
 				}
 
@@ -757,6 +827,9 @@ stream_encode_mt(void *coder_ptr, const lzma_allocator *allocator,
 						out, out_pos, out_size,
 						&unpadded_size,
 						&uncompressed_size);
+
+				VERIF_EV("BlkRead", coder, -1, ret, *out_pos, 0,
+						uncompressed_size);
 			}
 
 			if (ret == LZMA_STREAM_END) {
